@@ -42,8 +42,8 @@ def Hist.setExpect (h : Hist α) (e : Expect α) (cdf : α → α) : Hist α × 
   let r := setExpectLoop h cdf h.nb.toNat 0 #[] e.emin
   ({ h with isDone := true }, { e with expect := some r.1, emin := r.2 })
 
-/-- `esl_histogram_SetExpectedTail()`. On a `Score2Bin` failure the status is returned, `emin` is left as it was and a freshly allocated
-    `expect[]` stays uninitialised: modelled as "no expected counts" (`none`) when it was NULL before. -/
+/-- `esl_histogram_SetExpectedTail()`. On a `Score2Bin` failure the status is returned and nothing else happens: `emin` and `expect[]` are left
+    as they were — in particular `expect` stays NULL when it was NULL (since 6815f41 the allocation follows the `Score2Bin` check). -/
 def Hist.setExpectedTail (h : Hist α) (e : Expect α) (baseVal pmass : α) (cdf : α → α) : St × Hist α × Expect α :=
   let (st, b) := h.score2bin baseVal
   if st != .ok then (st, h, e) else
